@@ -115,6 +115,18 @@ func TestC02(t *testing.T) {
 	p = c.rec.NewPart("truncations", "every prefix of every markup construct and corpus input; hostile construct openers at end of input behind 13 contexts", false, false, "")
 	c.ParRange(p, int64(len(tr)), func(w *Worker, i int64) { judge(w, tr[i]) })
 
+	hb := htmlBoundaryInputs()
+	p = c.rec.NewPart("boundary_inputs", "length-, count- and code-point boundary inputs (see C07); case-folding code points are NOT excluded here", false, true, "")
+	c.ParRange(p, int64(len(hb)), func(w *Worker, i int64) { judge(w, hb[i]) })
+	// comment bodies over case-folding code points and marker letters, exhaustive
+	p = c.rec.NewPart("unicode_fold_comments", "5 comment openers x every body of length 0..5 over {U+0131, U+017F, U+1FBE, a, [, i}", false, true, "")
+	c.EnumSeq(p, []string{"\xc4\xb1", "\xc5\xbf", "\xe1\xbe\xbe", "a", "[", "i"}, "", 0, 5, func(w *Worker, s string) {
+		for _, op := range []string{"<!--", "<!", "<?", "<%", "</ "} {
+			judge(w, op+s)
+			judge(w, op+s+">")
+		}
+	})
+
 	// stack probes: every single symbol and state-changing pairs repeated to 1 MB
 	var probes []ev.Case
 	for _, a := range gen.AlphaHTML {
